@@ -69,6 +69,53 @@ public:
     if (r.size() > 400) r = r.substr(0, 400) + "...";
     return r;
   }
+  // canonical structure of a small statement / expression: operators by opcode, parameters by position, callees by name;
+  // parentheses, implicit casts, temporaries and elidable copies are transparent
+  std::string shape(const Stmt *S, const FunctionDecl *F, int depth) {
+    if (!S) return "?null";
+    if (depth > 12) return "?deep";
+    if (auto *R = dyn_cast<ReturnStmt>(S)) return "R(" + (R->getRetValue() ? shape(R->getRetValue(), F, depth + 1) : std::string()) + ")";
+    if (auto *E = dyn_cast<Expr>(S)) {
+      const Expr *X = E->IgnoreParenImpCasts();
+      if (auto *C = dyn_cast<ExprWithCleanups>(X)) return shape(C->getSubExpr(), F, depth + 1);
+      if (auto *C = dyn_cast<MaterializeTemporaryExpr>(X)) return shape(C->getSubExpr(), F, depth + 1);
+      if (auto *C = dyn_cast<CXXBindTemporaryExpr>(X)) return shape(C->getSubExpr(), F, depth + 1);
+      if (auto *C = dyn_cast<CXXFunctionalCastExpr>(X)) return "K(" + C->getType().getUnqualifiedType().getAsString() + "," + shape(C->getSubExpr(), F, depth + 1) + ")";
+      if (auto *C = dyn_cast<CXXConstructExpr>(X)) {
+        if (C->getNumArgs() == 1 && C->getConstructor()->isCopyOrMoveConstructor()) return shape(C->getArg(0), F, depth + 1);
+        std::string r = "K(" + C->getType().getUnqualifiedType().getAsString();
+        for (auto *A : C->arguments()) r += "," + shape(A, F, depth + 1);
+        return r + ")";
+      }
+      if (auto *D = dyn_cast<DeclRefExpr>(X)) {
+        if (auto *PV = dyn_cast<ParmVarDecl>(D->getDecl())) return "P" + std::to_string(PV->getFunctionScopeIndex());
+        return "D(" + D->getDecl()->getNameAsString() + ")";
+      }
+      if (auto *B = dyn_cast<BinaryOperator>(X)) return "B(" + B->getOpcodeStr().str() + "," + shape(B->getLHS(), F, depth + 1) + "," + shape(B->getRHS(), F, depth + 1) + ")";
+      if (auto *U = dyn_cast<UnaryOperator>(X)) return "U(" + UnaryOperator::getOpcodeStr(U->getOpcode()).str() + "," + shape(U->getSubExpr(), F, depth + 1) + ")";
+      if (auto *O = dyn_cast<CXXOperatorCallExpr>(X)) {
+        std::string op = getOperatorSpelling(O->getOperator());
+        std::string r = (O->getNumArgs() == 1 ? "U(" : "B(") + op;
+        for (auto *A : O->arguments()) r += "," + shape(A, F, depth + 1);
+        return r + ")";
+      }
+      if (auto *M = dyn_cast<CXXMemberCallExpr>(X)) {
+        std::string r = "M(" + (M->getMethodDecl() ? M->getMethodDecl()->getNameAsString() : std::string("?")) + "," + shape(M->getImplicitObjectArgument(), F, depth + 1);
+        for (auto *A : M->arguments()) if (!isa<CXXDefaultArgExpr>(A)) r += "," + shape(A, F, depth + 1);
+        return r + ")";
+      }
+      if (auto *C = dyn_cast<CallExpr>(X)) {
+        std::string r = "C(" + (C->getDirectCallee() ? C->getDirectCallee()->getQualifiedNameAsString() : std::string("?"));
+        for (auto *A : C->arguments()) if (!isa<CXXDefaultArgExpr>(A)) r += "," + shape(A, F, depth + 1);
+        return r + ")";
+      }
+      if (auto *L = dyn_cast<IntegerLiteral>(X)) return "I(" + llvm::toString(L->getValue(), 10, true) + ")";
+      if (isa<FloatingLiteral>(X)) return "F(" + text(X) + ")";
+      if (auto *ME = dyn_cast<MemberExpr>(X)) return "F." + ME->getMemberDecl()->getNameAsString() + "(" + shape(ME->getBase(), F, depth + 1) + ")";
+      return std::string("?") + X->getStmtClassName();
+    }
+    return std::string("?") + S->getStmtClassName();
+  }
   std::string text(const Stmt *S) {
     if (!S) return "";
     SourceRange R = S->getSourceRange();
@@ -637,7 +684,7 @@ public:
     json::Array lp; loops(Body, lp, 0); fn["loops"] = std::move(lp);
     // top-level statements of the body (for the shape of Task::execute)
     json::Array top;
-    if (auto *CS = dyn_cast<CompoundStmt>(Body)) for (auto *S : CS->body()) top.push_back(json::Object{{"cls", S->getStmtClassName()}, {"text", text(S).substr(0, 160)}});
+    if (auto *CS = dyn_cast<CompoundStmt>(Body)) for (auto *S : CS->body()) top.push_back(json::Object{{"cls", S->getStmtClassName()}, {"text", text(S).substr(0, 160)}, {"shape", shape(S, F, 0)}});
     fn["top"] = std::move(top);
     G.reset(); PM.reset();
     return std::move(fn);
